@@ -364,6 +364,10 @@ def fam_builder(seed, big):
                 [["env", "A", H + "ff"], ["clone"], ["env", "B", H + "fe"]]):
         for t in ("capture", "join"):
             add(ops, t)
+    # an empty variable name (an entry "=value" in the environment block): an edit like any other
+    for ops in ([["env", "", "x"]], [["env", "", "x"], ["env", "A", "1"], ["env_remove", ""]], [["env_extend", [["", "y"], ["B", "2"]]]]):
+        for t in ("capture", "join"):
+            add(ops, t)
     for sh in ("true", "true a  b 'c d'", "exit 0", "true \"$HOME\" ; true", "", "true\nnewline", "echo 'it''s' >/dev/null"):
         add([], "join", shell=sh)
         add([["arg", "extra arg"], ["env", "A", "1"]], "capture", shell=sh)
